@@ -202,6 +202,24 @@ theorem final_tree_closed_form (base : FS) (hw : WF base) (hl : LinkFree base)
   rw [hdry]
   exact valid_report_closed_form base evs.length evs (Nat.le_refl _) hval hov hnd hsrc x
 
+/-- two readings of the closed form: every reported file is at its reported destination, and every initial path that no
+    reported rename left from is still there -/
+theorem closed_form_readings (base : FS) (evs : List Event) (final : APath → Bool)
+    (h : ∀ x, final x = true ↔ ((∃ e ∈ evs, dstKey e = x) ∨ (lexists base x = true ∧ ¬ ∃ e ∈ evs, srcKey e = x))) :
+    (∀ e ∈ evs, final (dstKey e) = true) ∧
+    (∀ x, lexists base x = true → (∀ e ∈ evs, srcKey e ≠ x) → final x = true) ∧
+    (∀ x, lexists base x = false → (∀ e ∈ evs, dstKey e ≠ x) → final x = false) := by
+  refine ⟨fun e he => (h _).mpr (Or.inl ⟨e, he, rfl⟩), ?_, ?_⟩
+  · intro x hb hn
+    exact (h x).mpr (Or.inr ⟨hb, fun ⟨e, he, hk⟩ => hn e he hk⟩)
+  · intro x hb hn
+    cases hf : final x with
+    | false => rfl
+    | true =>
+      rcases (h x).mp hf with ⟨e, he, hk⟩ | ⟨hb', _⟩
+      · exact absurd hk (hn e he)
+      · rw [hb] at hb'; cases hb'
+
 /-- non-vacuity: the far-end chain report `[b → c, a → b]` on `in/{a, b}` is valid, without override, with different
     sources that exist initially -/
 example :
